@@ -76,6 +76,7 @@ type Contract struct {
 	AllocBound  *Clause
 	NilRecvOK   bool
 	SpecOnly    bool
+	InlineAll   bool // harness: same-package callees are inlined instead of used by contract
 }
 
 type SpecFn struct {
@@ -103,6 +104,7 @@ type SpecSet struct {
 	Fns       map[string]*SpecFn
 	Lemmas    []*Lemma
 	Axioms    []*Lemma
+	Invs      []*Lemma // package-level invariants over globals (established by init, never written elsewhere)
 	Order     []string
 }
 
@@ -226,6 +228,8 @@ func (ss *SpecSet) parseSpec(text, path, pkgPath string) error {
 			cur.Pure = true
 		case "inline":
 			cur.Inline = true
+		case "inline-calls":
+			cur.InlineAll = true
 		case "spec-only":
 			cur.SpecOnly = true
 		case "nil-receiver-ok":
@@ -248,6 +252,13 @@ func (ss *SpecSet) parseSpec(text, path, pkgPath string) error {
 			}
 			fn.Pkg = pkgPath
 			ss.Fns[fn.Name] = fn
+			cur = nil
+		case "invariant":
+			e, err := parseExpr(rest)
+			if err != nil {
+				return fail(err)
+			}
+			ss.Invs = append(ss.Invs, &Lemma{Name: fmt.Sprintf("inv@%d", ln+1), Expr: e, Text: rest, Pkg: pkgPath, Line: ln + 1, Props: append([]string(nil), defaultProps...)})
 			cur = nil
 		case "lemma", "axiom":
 			i := strings.Index(rest, ":")
